@@ -47,6 +47,30 @@ static inline StringSet catalogue_set(uint32_t idx, int max_n) {
   s.freqprof = (int)((idx / 16) % 3);
   int n = ns[r.below(sizeof ns / sizeof ns[0])];
   if (n > max_n) n = 1 + (int)r.below((uint64_t)max_n);
+  if (idx % 8 == 7) {
+    // adversarial for statistical coders: many short strings over a few common symbols plus one to three long
+    // strings made of symbols that occur nowhere else (codewords far longer than 8 bits, strings of maximal length)
+    s.lenprof = 4; s.alpha = 5;
+    int longs = (int)r.range(1, 3);
+    int guard2 = 0;
+    // enough text for the rare symbols to get codewords well beyond 8 bits
+    n = std::min(max_n, 120 + (int)r.below(80));
+    while ((int)s.v.size() < std::max(1, n - longs) && guard2++ < n * 20 + 100) {
+      std::string t; int L = (int)r.range(1, 8);
+      for (int i = 0; i < L; i++) t += (char)('a' + (int)r.below(5));
+      s.v.push_back(t);
+      std::sort(s.v.begin(), s.v.end(), ubyte_less);
+      s.v.erase(std::unique(s.v.begin(), s.v.end()), s.v.end());
+    }
+    for (int k = 0; k < longs; k++) {
+      std::string t; int L = (int)r.range(20, 150);
+      for (int i = 0; i < L; i++) t += (char)(0x80 + (int)r.below(0x7F));
+      s.v.push_back(t);
+    }
+    std::sort(s.v.begin(), s.v.end(), ubyte_less);
+    s.v.erase(std::unique(s.v.begin(), s.v.end()), s.v.end());
+    return s;
+  }
   std::string common;
   if (s.lenprof == 2 || s.lenprof == 3) { int L = (int)r.range(128, 160); for (int i = 0; i < L; i++) common += (char)gen_sym(r, s.alpha, s.freqprof); }
   int guard = 0;
